@@ -857,3 +857,6 @@ HARNESSES = [
             stubs=["EllipsoidalEnergyDescription.sphInt: exact value of the integral (textbook isotropic Green function moments)", "np.linalg.inv(6x6): exact inverse"],
             params={"quick": [{"via": "constants"}], "thorough": [{"via": "constants"}, {"via": "moduli"}]}),
 ]
+
+from harness.c16_extra import EXTRA as _EXTRA
+HARNESSES = HARNESSES + _EXTRA
